@@ -257,7 +257,16 @@ impl<T: std::cmp::PartialEq + std::fmt::Display + std::fmt::Debug + std::clone::
     pub fn to_serde_struct(&self, options: &Options) -> String {
         let trace_length = self.compute_name_hints();
         let mut trace = Vec::new();
-        self.inner_to_serde_struct(options, &mut trace, &trace_length)
+        let mut struct_names = StructNames::default();
+        let struct_name =
+            struct_names.reserve(self.expand_name(&[self.formatted_name()], &trace_length));
+        self.inner_to_serde_struct(
+            options,
+            &mut trace,
+            &trace_length,
+            &mut struct_names,
+            struct_name,
+        )
     }
 
     /// generate a String representing this element and all children elements recursivly as series of Rust structs
@@ -267,6 +276,8 @@ impl<T: std::cmp::PartialEq + std::fmt::Display + std::fmt::Debug + std::clone::
         options: &Options,
         trace: &mut Vec<String>,
         trace_length: &HashMap<String, usize>,
+        struct_names: &mut StructNames,
+        struct_name: String,
     ) -> String {
         let mut serde_struct = String::new();
         let mut serde_child_struct = String::new();
@@ -277,10 +288,7 @@ impl<T: std::cmp::PartialEq + std::fmt::Display + std::fmt::Debug + std::clone::
             serde_struct.push_str(&format!("#[derive({})]\n", options.derive));
         }
 
-        serde_struct.push_str(&format!(
-            "pub struct {} {{\n",
-            self.expand_name(trace, trace_length)
-        ));
+        serde_struct.push_str(&format!("pub struct {} {{\n", struct_name));
 
         let mut used_attr_names = vec![];
 
@@ -360,31 +368,35 @@ impl<T: std::cmp::PartialEq + std::fmt::Display + std::fmt::Debug + std::clone::
 
             let text_only_element = child.inner_t().contains_only_text();
 
+            let mut child_struct_name = String::new();
             if !text_only_element {
                 trace.push(child.inner_t().formatted_name());
+                // the name is reserved once and used for the field type and the struct definition
+                child_struct_name =
+                    struct_names.reserve(child.inner_t().expand_name(trace, trace_length));
             }
 
             if child.inner_t().standalone() {
                 match child {
-                    Necessity::Mandatory(c) => {
+                    Necessity::Mandatory(_) => {
                         serde_struct.push_str(&format!(
                             "    pub {}: {},\n",
                             &child_name,
                             if text_only_element {
                                 "String".to_string()
                             } else {
-                                c.expand_name(trace, trace_length)
+                                child_struct_name.clone()
                             }
                         ));
                     }
-                    Necessity::Optional(c) => {
+                    Necessity::Optional(_) => {
                         serde_struct.push_str(&format!(
                             "    pub {}: Option<{}>,\n",
                             &child_name,
                             if text_only_element {
                                 "String".to_string()
                             } else {
-                                c.expand_name(trace, trace_length)
+                                child_struct_name.clone()
                             }
                         ));
                     }
@@ -398,7 +410,7 @@ impl<T: std::cmp::PartialEq + std::fmt::Display + std::fmt::Debug + std::clone::
                             if text_only_element {
                                 "String".to_string()
                             } else {
-                                child.inner_t().expand_name(trace, trace_length)
+                                child_struct_name.clone()
                             }
                         ));
                     }
@@ -409,7 +421,7 @@ impl<T: std::cmp::PartialEq + std::fmt::Display + std::fmt::Debug + std::clone::
                             if text_only_element {
                                 "String".to_string()
                             } else {
-                                child.inner_t().expand_name(trace, trace_length)
+                                child_struct_name.clone()
                             }
                         ));
                     }
@@ -423,6 +435,8 @@ impl<T: std::cmp::PartialEq + std::fmt::Display + std::fmt::Debug + std::clone::
                     options,
                     trace,
                     trace_length,
+                    struct_names,
+                    child_struct_name,
                 ));
             }
         }
@@ -434,6 +448,37 @@ impl<T: std::cmp::PartialEq + std::fmt::Display + std::fmt::Debug + std::clone::
         trace.pop();
 
         serde_struct
+    }
+}
+
+/// struct names that are already taken in the generated output
+/// makes sure that each struct gets a unique name that is a legal type identifier
+#[derive(Default)]
+struct StructNames {
+    used: Vec<String>,
+}
+
+impl StructNames {
+    /// return the given name, or the name followed by a number if it is already in use,
+    /// not a valid identifier or would shadow a type that is used by the generated fields
+    fn reserve(&mut self, name: String) -> String {
+        let base = if name.is_empty() {
+            "_".to_string()
+        } else {
+            name
+        };
+        let mut unused_name = base.clone();
+        let mut i = 0;
+
+        while ["_", "Self", "String", "Option", "Vec"].contains(&unused_name.as_str())
+            || self.used.contains(&unused_name)
+        {
+            i += 1;
+            unused_name = format!("{}{}", base, i);
+        }
+
+        self.used.push(unused_name.clone());
+        unused_name
     }
 }
 
